@@ -17,8 +17,8 @@ for sd in sorted(glob.glob('/tmp/seed/out_*/C*_*')):
     if not os.path.exists(sd + '/patch.diff') or not os.path.exists(sd + '/meta.json'):
         continue
     g = int(sd.split('out_')[1].split('/')[0])
-    wave = 3 if g > 30 else (2 if g > 10 else 1)
-    name = {1: '', 2: 'w2_', 3: 'w3_'}[wave] + os.path.basename(sd)
+    wave = 4 if g > 40 else (3 if g > 30 else (2 if g > 10 else 1))
+    name = {1: '', 2: 'w2_', 3: 'w3_', 4: 'w4_'}[wave] + os.path.basename(sd)
     dst = '/verif/seeded/' + name
     os.makedirs(dst, exist_ok=True)
     for fn in ['patch.diff', 'demo.rs']:
